@@ -555,6 +555,63 @@ def stream_malformed(c):
                 c.disagree("accept/reject of a bound shape", dict(s=s_, blen=blen), mo, impl)
 
 
+def benign_case(rng):
+    """an instance whose solve is harmless: boxes, convex objective through a quadratic path term"""
+    dt = gen_case(rng, poly=False)
+    dt["pcs"] = []
+    dt["pts"] = [[] for _ in range(dt["E"])]
+    dt["theta"] = 1.0
+    dt["pobj"] = [(1.0, ("x0", "x0")), (0.5, ("u0", "u0")), (rng.choice([1.0, -1.0, 0.5]), ("x0",)),
+                  (rng.choice([1.0, 0.25]), ("c0",)), (1.0, ("p0",)), (rng.choice([1.0, -0.5]), ("p2", "x0")),
+                  (1.0, ("p2",))]
+    dt["obj"] = [[(2.0 + m, (("at", "x0", len(dt["ts"]) - 1),)), (0.5, (("at", "u0", 0),))] for m in range(dt["E"])]
+    dt["hist"] = [dict() for _ in range(dt["E"])]
+    s = case_spec(dt)
+    s.bnds.update({x: (-20.0, 20.0) for x in dt["states"] + dt["algs"]})
+    return dt, s
+
+
+def formula_on_results(dt, s, pr):
+    """the documented objective evaluated on extract_results() of every member"""
+    n = len(dt["ts"])
+    f = 0.0
+    for m in range(dt["E"]):
+        res = pr.extract_results(m)
+        traj = {k: np.asarray(res[k], dtype=float) for k in dt["states"] + dt["algs"] + dt["controls"]}
+        for x in dt["states"]:
+            traj["initial_der(%s)" % x] = float(np.asarray(res["initial_der(%s)" % x]).ravel()[0])
+        for w, sz in dt["pathvars"]:
+            v = np.asarray(res[w], dtype=float)
+            traj[w] = v.reshape((n, sz)) if v.ndim == 1 else v
+        for e, sz in dt["extravars"]:
+            traj[e] = np.asarray(res[e], dtype=float).reshape(-1)
+        envs = [env_at(s, traj, m, i) for i in range(n)]
+        fm = eval_point(dt["obj"][m], s, traj, m) + sum(eval_path(dt["pobj"], e) for e in envs)
+        f += dt["probs"][m] * fm
+    return f
+
+
+def readback(c, pr, dt, s, label, view):
+    """`objective_value` must be the transcribed objective at the returned point (`solver_output`), which
+    is the documented formula on `extract_results()` -- after a successful AND after an unsuccessful solve"""
+    import casadi as ca
+
+    r = call(lambda: float(pr.objective_value))
+    if r[0] == "raise":
+        c.fail("objective_value cannot be read after %s: %s" % (label, r[1]), view)
+        return
+    ov = r[1]
+    nlp = pr.transcribed_problem["nlp"]
+    f_at = float(ca.Function("f", [nlp["x"]], [nlp["f"]])(pr.solver_output))
+    f_doc = formula_on_results(dt, s, pr)
+    if not close(f_at, ov, rtol=1e-7, atol=1e-7):
+        c.fail("objective_value is not the transcribed objective at the returned point (%s)" % label, view,
+               dict(objective_value=ov, f_at_solver_output=f_at, formula_on_results=f_doc))
+    elif not close(f_doc, ov, rtol=1e-6, atol=1e-6):
+        c.fail("objective_value differs from the documented formula on extract_results() (%s)" % label, view,
+               dict(objective_value=ov, formula_on_results=f_doc))
+
+
 def stream_solve(c, N):
     """`objective_value` after a real solve vs the documented formula on `extract_results()`"""
     rng = c.rng
@@ -563,17 +620,7 @@ def stream_solve(c, N):
     tries = 0
     while done < N and tries < 4 * N:
         tries += 1
-        dt = gen_case(rng, poly=False)
-        # keep the solve benign: box everything, convex objective through a quadratic path term
-        dt["pcs"] = []
-        dt["pts"] = [[] for _ in range(dt["E"])]
-        dt["theta"] = 1.0
-        dt["pobj"] = [(1.0, ("x0", "x0")), (0.5, ("u0", "u0")), (rng.choice([1.0, -1.0, 0.5]), ("x0",)),
-                      (rng.choice([1.0, 0.25]), ("c0",)), (1.0, ("p0",))]
-        dt["obj"] = [[(2.0 + m, (("at", "x0", len(dt["ts"]) - 1),)), (0.5, (("at", "u0", 0),))] for m in range(dt["E"])]
-        dt["hist"] = [dict() for _ in range(dt["E"])]
-        s = case_spec(dt)
-        s.bnds.update({x: (-20.0, 20.0) for x in dt["states"] + dt["algs"]})
+        dt, s = benign_case(rng)
         pr = cls(spec=s)
         with quiet_fd():
             r = call(pr.optimize)
@@ -583,24 +630,36 @@ def stream_solve(c, N):
         done += 1
         c.count(("c06-solve", dt["E"], len(dt["ts"]), tuple(dt["probs"])))
         c.hit("c06/solved")
-        n = len(dt["ts"])
-        f = 0.0
-        for m in range(dt["E"]):
-            res = pr.extract_results(m)
-            traj = {k: np.asarray(res[k], dtype=float) for k in dt["states"] + dt["algs"] + dt["controls"]}
-            for x in dt["states"]:
-                traj["initial_der(%s)" % x] = float(np.asarray(res["initial_der(%s)" % x]).ravel()[0])
-            for w, sz in dt["pathvars"]:
-                v = np.asarray(res[w], dtype=float)
-                traj[w] = v.reshape((n, sz)) if v.ndim == 1 else v
-            for e, sz in dt["extravars"]:
-                traj[e] = np.asarray(res[e], dtype=float).reshape(-1)
-            envs = [env_at(s, traj, m, i) for i in range(n)]
-            fm = eval_point(dt["obj"][m], s, traj, m) + sum(eval_path(dt["pobj"], e) for e in envs)
-            f += dt["probs"][m] * fm
-        if not close(f, pr.objective_value, rtol=1e-6, atol=1e-6):
-            c.fail("objective_value differs from the documented formula on extract_results()",
-                   dict(case=dt), dict(expected=f, got=pr.objective_value))
+        readback(c, pr, dt, s, "a successful solve", dict(stream="c06-solve", case=dt))
+
+
+def stream_resolve(c, N):
+    """two real solves on ONE object with a data change in between, one of them made unsuccessful by an
+    iteration limit (both orders): after each solve the value read back must belong to THAT solve"""
+    rng = c.rng
+    cls = syn_class(())
+    for q in range(N):
+        dt, s = benign_case(rng)
+        order = "success-then-failure" if q % 2 == 0 else "failure-then-success"
+        pr = cls(spec=s)
+        outcomes = []
+        for step in (0, 1):
+            limited = (step == 1) == (order == "success-then-failure")
+            s.ipopt = {"max_iter": rng.choice([0, 1, 1, 2])} if limited else None
+            if step == 1:
+                before = change_between_runs(rng, dt)
+            with quiet_fd():
+                r = call(pr.optimize)
+            view = dict(stream="c06-resolve", order=order, step=step, case=copy.deepcopy(dt))
+            if step == 1:
+                view["first_solve_with"] = before
+            if r[0] == "raise":
+                c.fail("optimize() raised on a benign instance: " + r[1], view)
+                break
+            outcomes.append(bool(r[1]))
+            c.hit("c06/resolve-%s-%s" % ("limited" if limited else "free", "ok" if r[1] else "unsuccessful"))
+            readback(c, pr, dt, s, "%s, solve %d (%s)" % (order, step + 1, "successful" if r[1] else "unsuccessful"), view)
+        c.count(("c06-resolve", order, tuple(outcomes), dt["E"], len(dt["ts"])))
 
 
 def probe_f6(c):
@@ -637,7 +696,8 @@ def run(c):
         "one-element vector, 1-D / 2-D Timeseries on own stamps -> fills; member specific) and 0-3 point "
         "constraints per member (size 1-3); re-run stream: transcribe() twice on one instance with a change of a "
         "user-function parameter (constant across the ensemble or not), constant inputs and probabilities in "
-        "between, second transcription compared at the new data; distinct = (E, n, poly, bound kinds, #constraints, variable kinds)"
+        "between, second transcription compared at the new data; re-solve stream: two real solves on one object, "
+        "one made unsuccessful by an iteration limit (both orders), objective_value read back after each; distinct = (E, n, poly, bound kinds, #constraints, variable kinds)"
     )
     c.assumptions = [
         "CasADi evaluates Function/map/substitute/jacobian as documented; IPOPT returns the objective at its point",
@@ -657,6 +717,7 @@ def run(c):
     with warnings.catch_warnings():
         warnings.simplefilter("ignore")
         stream_solve(c, c.n(8, 80))
+        stream_resolve(c, c.n(10, 100))
     c.exhaustive = False
     c.notes.append(
         "user rows are isolated as the multiset difference between the full transcription and the transcription of "
